@@ -22,7 +22,7 @@ Theorem C08_side_shapes :
   gen_try_shape_recognised && gen_try_operands_recognised && negb gen_break_runs_finally
   && gen_break_scope_pops_before_jump && gen_unwind_pops_innermost && gen_unwind_truncates_and_jumps_to_catch
   && gen_handler_records_heights && gen_end_finally_rethrows && gen_end_finally_resumes_return
-  && gen_jump_finally_targets_finally && gen_throw_sets_flag_and_unwinds && gen_push_handler_offsets = true.
+  && gen_jump_finally_targets_finally && gen_throw_unwinds && gen_push_handler_offsets = true.
 Proof. vm_compute; reflexivity. Qed.
 Theorem C08_side_frames : N.to_nat Consts.FRAMES_MAX = Handlers.FRAMES_MAX.
 Proof. vm_compute; reflexivity. Qed.
